@@ -195,6 +195,13 @@ class Executor:
         if tg == 'p' and func is not None:
             if t[1] == 'self' and func.cls is not None:
                 return func.cls
+            if t[1] == 'self' and func.cls is None:
+                # a local function of a method closes over the method's self
+                par = func.parent
+                while par is not None:
+                    if par.cls is not None and 'self' in par.params and 'self' not in func.params:
+                        return par.cls
+                    par = par.parent
             for a in func.node.args.args:
                 if a.arg == t[1] and a.annotation is not None:
                     q = self.p.resolve_static(func.module, a.annotation, func)
@@ -298,6 +305,7 @@ class _Run:
         self.trystack: list = []
         self.cvdepth = 0
         self.continue_states: list = []
+        self.break_guards: list = []
         self.declared_global: set = set()
 
     # ------------------------------------------------------------------ events
@@ -518,6 +526,8 @@ class _Run:
 
     def st_Break(self, s, st):
         st.dead = 'break'
+        if self.break_guards:
+            self.break_guards[-1].append(st.guard)
         return st
 
     def st_If(self, s, st):
@@ -596,6 +606,7 @@ class _Run:
         loop.init = init
         self.loopstack.append(lid)
         self.continue_states.append([])
+        self.break_guards.append([])
         try:
             if kind == 'for':
                 fused = self._fuse_iteration(it, lid)
@@ -610,13 +621,20 @@ class _Run:
                     self._bind_loop_target(s.target, it, lid, body_st, s)
             else:
                 c = self.ev(s.test, body_st)
-                loop.cond = c
+                loop.cond = _truth(c)
                 self.emit('cond', s, body_st, value=c, note='while')
                 body_st.guard = T.mk_and([body_st.guard, _truth(c)])
+            body_st_entry_guard = body_st.guard
             end = self.block(s.body, body_st)
         finally:
             self.loopstack.pop()
             cont = self.continue_states.pop()
+            brk = self.break_guards.pop()
+        if kind == 'while' and loop.cond == TRUE and brk:
+            # while True: ... if c: break ...  runs while not c (c as evaluated inside the body)
+            entry = set(guard_lits(body_st_entry_guard))
+            rel = [T.mk_and([l for l in guard_lits(g) if l not in entry]) for g in brk]
+            loop.cond = T.mk_not(T.mk_or(rel))
         if cont:
             # end of an iteration = normal end of the body or any `continue`
             ends = ([end] if end.dead is None else []) + cont
@@ -1211,6 +1229,14 @@ class _Run:
             return args[0]              # list(generator()) with the generator expanded
         if tg == 'g' and fn[1] in ('numpy.logical_and', 'numpy.logical_or') and len(args) == 2 and not kws:
             return T.mk_bin('&' if fn[1].endswith('and') else '|', _truthy_array(args[0]), _truthy_array(args[1]))
+        if tg == 'g' and fn[1] == 'builtins.len' and len(args) == 1 and not kws:
+            a0 = args[0]
+            if T.is_const(a0) and isinstance(a0[1], (str, tuple)):
+                return C(len(a0[1]))
+            if tag(a0) == 'phi' and len(a0[1]) <= 4 and any(T.is_const(v) and isinstance(v[1], (str, tuple)) for _, v in a0[1]):
+                return T.mk_phi([(g, self.call(fn, (v,), (), node, st)) for g, v in a0[1]])
+        if tg == 'g' and fn[1] == 'builtins.bool' and len(args) == 1 and not kws and T.boolish(args[0]):
+            return args[0]              # bool() of a condition is that condition
         if tg == 'g' and fn[1] == 'numpy.logical_not' and len(args) == 1 and not kws:
             return T.mk_un('~', _truthy_array(args[0]))
         # ---- builtins with static meaning
@@ -1415,6 +1441,12 @@ _BINOP = {ast.Add: '+', ast.Sub: '-', ast.Mult: '*', ast.Div: '/', ast.FloorDiv:
           ast.LShift: '<<', ast.RShift: '>>', ast.MatMult: '@'}
 _CMPOP = {ast.Lt: '<', ast.Gt: '>', ast.LtE: '<=', ast.GtE: '>=', ast.Eq: '==', ast.NotEq: '!=',
           ast.Is: 'is', ast.IsNot: 'isnot', ast.In: 'in', ast.NotIn: 'notin'}
+
+
+def guard_lits(g) -> list:
+    if g == TRUE:
+        return []
+    return list(g[1]) if tag(g) == 'and' else [g]
 
 
 def _truth(c):
